@@ -28,7 +28,7 @@ ObsL0 == IF pre.lastOK
 
 C == INSTANCE Core WITH
        MaxPg <- NP, InitN <- 0, MaxVer <- 0, MaxFrames <- 0, MaxTx <- 0, MaxGen <- 0, MaxDown <- 0,
-       FixF1 <- TRUE, FixF2 <- TRUE, FixG1 <- TRUE, ReqCtx <- FALSE, FixQ1 <- TRUE, FixQ2 <- TRUE, Modes <- {}, AppModes <- {}, AtomicChk <- TRUE, WithCrash <- FALSE,
+       FixF1 <- TRUE, FixF2 <- TRUE, FixG1 <- TRUE, ReqCtx <- FALSE, FixQ1 <- TRUE, FixQ2 <- TRUE, FixM2 <- TRUE, Modes <- {}, AppModes <- {}, AtomicChk <- TRUE, WithCrash <- FALSE,
        dbf <- ObsDbf, dbfN <- Len(pre.dbf), wal <- ObsWal, hdrGen <- pre.hdr, idxGen <- pre.hdr, mx <- 0, bf <- 0, sz <- 0,
        rd <- 0, wlock <- "none", txn <- 0, nextVer <- 0, nextGen <- 0, nextSt <- 0, up <- TRUE,
        mem <- [toEnd |-> pre.toEnd, lastOff |-> 0], l0 <- ObsL0, rN <- 0, acked <- FALSE, downs <- 0,
